@@ -172,7 +172,10 @@ def _blackbox_workload(cls, cap, nthreads, nops, rnd, keys, vals):
                 if op in ("keys", "values", "items", "iter"):
                     list(iter(c) if op == "iter" else getattr(c, op)())
                 else:
-                    _apply(c, op, k, v)
+                    res = _apply(c, op, k, v)
+                    # a lookup / deletion of an absent key may raise KeyError; get-with-default never raises; nothing raises anything else
+                    if res and res[0].startswith("!") and res[0] not in ("!None", "!True", "!False") and not (res[0] == "!KeyError" and op in ("get", "del")):
+                        errs.append(f"{op}({k!r}) raised {res[0][1:]}")
             except Exception as ex:  # noqa: BLE001
                 errs.append(repr(ex))
 
@@ -182,6 +185,50 @@ def _blackbox_workload(cls, cap, nthreads, nops, rnd, keys, vals):
     for t in ths:
         t.join()
     return errs, c
+
+
+def _hammer(cls, cap, nthreads, seconds, rnd):
+    """Constant eviction under a tiny switch interval: half the threads look keys up WITH a default (must never raise), the others insert
+    and delete, for a fixed time.  Finds operations that take the lock twice (test then act)."""
+    import time
+    c = cls(cap)
+    keys = ["k%d" % i for i in range(cap + 2)]
+    stop = time.monotonic() + seconds
+    errs, counts = [], [0]
+
+    def reader(r):
+        n = 0
+        while time.monotonic() < stop and not errs:
+            k = r.choice(keys)
+            try:
+                c.get(k, "dflt")
+                c.get(k)
+                k in c
+                len(c)
+            except Exception as ex:  # noqa: BLE001
+                errs.append(f"reader: {type(ex).__name__}({ex})")
+            n += 1
+        counts[0] += n
+
+    def writer(r):
+        while time.monotonic() < stop and not errs:
+            k = r.choice(keys)
+            try:
+                c[k] = "v"
+                if r.random() < 0.3:
+                    try:
+                        del c[r.choice(keys)]
+                    except KeyError:
+                        pass
+            except Exception as ex:  # noqa: BLE001
+                errs.append(f"writer: {type(ex).__name__}({ex})")
+
+    ths = [threading.Thread(target=reader if i % 2 == 0 else writer, args=(random.Random(rnd.random()),)) for i in range(nthreads)]
+    for t in ths:
+        t.start()
+    for t in ths:
+        t.join()
+    return errs, counts[0], c
 
 
 def _recorder_selftest(LRUCache, ThreadSafeLRUCache):
@@ -303,6 +350,15 @@ def run(tier: str) -> int:
             listing = list(c.keys())
             if len(c) > cap or len(listing) != len(set(listing)) or len(listing) != len(c):
                 ck.fail("after a threaded workload the cache exceeds its capacity or lists a key twice", {"cap": cap, "len": len(c), "keys": listing}, sig="threads:bound")
+        for cap, nth in ((1, 4), (2, 4)):
+            errs, n, c = _hammer(ThreadSafeLRUCache, cap, nth, 1.5 if tier == "quick" else 10.0, rnd)
+            ck.case(("threads-hammer", cap, nth))
+            ck.validated()
+            ck.cov["hammer_lookups"] = ck.cov.get("hammer_lookups", 0) + n
+            if errs:
+                ck.fail("a thread-safe cache operation failed under concurrent eviction", {"errors": errs[:5], "capacity": cap, "threads": nth}, sig="threads:escape")
+            if len(c) > cap:
+                ck.fail("after the hammer the cache exceeds its capacity", {"cap": cap, "len": len(c)}, sig="threads:bound")
     finally:
         sys.setswitchinterval(old)
     # ---- C: recorded traces (only if the recorder fits this implementation: self-test on a scripted sequential run) ----------------
